@@ -11,19 +11,134 @@
 package main
 
 import (
+	"bytes"
 	"crypto/sha256"
 	"encoding/hex"
 	"fmt"
 	"strconv"
 	"strings"
+	"sync"
 
 	"elaverif/harness/hx"
 
 	"github.com/elastos/Elastos.ELA/common"
+	"github.com/elastos/Elastos.ELA/common/config"
+	transaction2 "github.com/elastos/Elastos.ELA/core/transaction"
+	"github.com/elastos/Elastos.ELA/core/types"
 	common2 "github.com/elastos/Elastos.ELA/core/types/common"
+	"github.com/elastos/Elastos.ELA/core/types/functions"
+	"github.com/elastos/Elastos.ELA/core/types/interfaces"
 	"github.com/elastos/Elastos.ELA/elanet/bloom"
 	"github.com/elastos/Elastos.ELA/p2p/msg"
 )
+
+// the two-transaction block of test/unit/blockvalidator_test.go: source of real transactions
+const fixtureBlockHex = "000000007b3a8b2032301d0f9fafadee3bddba8d798a3ce1ed1574063ae3bb55628cec763a45dffe0f38d9efb5" +
+	"0a41dbe6b7f4186ba9b4861ad624fdde6e1e775a81b0d3687f4c5add01561d000000001027000001000000010000000000000" +
+	"000000000000000000000000000000000000000000000000000000000002cfabe6d6d6d126217acca4ed3b3aa40de6d1dad67" +
+	"61a7bba4ebdb67c88714455cea580084010000000000000000000000000000000000000000000000000000000000000000000" +
+	"0000000000000000000000000000000000000000000000000ffffff7f00000000000000000000000000000000000000000000" +
+	"000000000000000000009fba1be4874f22da581831eb1a5243e53b51e57f3021222943a6a2919d19c19d687f4c5a000000001" +
+	"28c95000102000000000403454c4101000847cfc35085f3aec001000000000000000000000000000000000000000000000000" +
+	"0000000000000000ffffffffffff02b037db964a231458d2d6ffd5ea18944c4f90e63d547c5d3b9874df66a4ead0a3b54afb0" +
+	"80000000000000000129e9cf1c5f336fcf3a6c954444ed482c5d916e506b037db964a231458d2d6ffd5ea18944c4f90e63d54" +
+	"7c5d3b9874df66a4ead0a3a803f5140000000000000000129e9cf1c5f336fcf3a6c954444ed482c5d916e5061027000000020" +
+	"000016c3a8d6db4d3b4ccad1712a29c5e90e2e7bc26c603995fc18a37c85a5420ad445600ffffffff02b037db964a231458d2" +
+	"d6ffd5ea18944c4f90e63d547c5d3b9874df66a4ead0a3047823a7170100000000000021190ff3b12919c17f232db55431832" +
+	"2a6b43ba372b037db964a231458d2d6ffd5ea18944c4f90e63d547c5d3b9874df66a4ead0a300b864d9450000000000000021" +
+	"fa402bfaecabefacb6379c08edb5224fd95e25f700000000014140c72db63b7fdf90b8bf34e91f0a6394e25d1340f178a1776" +
+	"bdc344fecf8ced8e4db627fb9ffa7068c51d3d15b92a749ffa407e2593833ec836d4cdaae1062abe52321035e1529938d1a36" +
+	"bef97806557bdb4faec8c83a8fc557c1afb287b07bd923c589ac"
+
+
+var (
+	txOnce sync.Once
+	trTmpl interfaces.Transaction
+	fixHdr common2.Header
+)
+
+func initTx() {
+	txOnce.Do(func() {
+		functions.GetTransactionByTxType = transaction2.GetTransaction
+		functions.GetTransactionByBytes = transaction2.GetTransactionByBytes
+		functions.CreateTransaction = transaction2.CreateTransaction
+		functions.GetTransactionParameters = transaction2.GetTransactionparameters
+		config.DefaultParams = *config.GetDefaultParams()
+		var b types.Block
+		if err := b.Deserialize(bytes.NewReader(hx.UnHex(fixtureBlockHex))); err != nil {
+			panic("harness: fixture block: " + err.Error())
+		}
+		trTmpl = b.Transactions[1]
+		fixHdr = b.Header
+	})
+}
+
+func decodeTx(raw []byte) interfaces.Transaction {
+	r := bytes.NewReader(raw)
+	n, err := functions.GetTransactionByBytes(r)
+	if err != nil {
+		panic("harness: " + err.Error())
+	}
+	if err := n.Deserialize(r); err != nil {
+		panic("harness: " + err.Error())
+	}
+	return n
+}
+
+func encodeTx(tx interfaces.Transaction) []byte {
+	buf := new(bytes.Buffer)
+	if err := tx.Serialize(buf); err != nil {
+		panic("harness: " + err.Error())
+	}
+	return buf.Bytes()
+}
+
+func freshTx(r *hx.Rand) []byte {
+	initTx()
+	tx := decodeTx(encodeTx(trTmpl))
+	var id common.Uint256
+	copy(id[:], r.Bytes(32))
+	tx.SetInputs([]*common2.Input{{Previous: common2.OutPoint{TxID: id, Index: uint16(r.Intn(4))}}})
+	tx.SetLockTime(uint32(r.Intn(100000)))
+	return encodeTx(tx)
+}
+
+// real bloom.NewMerkleBlock over real transactions and a real bloom filter
+func doNMB(t []string) string {
+	initTx()
+	var txs []interfaces.Transaction
+	for _, h := range strings.Split(t[1], ",") {
+		txs = append(txs, decodeTx(hx.UnHex(h)))
+	}
+	elements, _ := strconv.ParseUint(t[2], 10, 32)
+	tweak, _ := strconv.ParseUint(t[3], 10, 32)
+	ppm, _ := strconv.ParseUint(t[4], 10, 32)
+	f := bloom.NewFilter(uint32(elements), uint32(tweak), float64(ppm)/1e6)
+	if len(t[5]) != len(txs) {
+		panic("harness: bad nmb op")
+	}
+	ids := make([]*common.Uint256, len(txs))
+	for i, tx := range txs {
+		h := tx.Hash()
+		ids[i] = &h
+		if t[5][i] == '1' {
+			f.AddHash(&h)
+		}
+	}
+	blk := &types.Block{Header: fixHdr, Transactions: txs}
+	m, matched := bloom.NewMerkleBlock(blk, f)
+	bits := make([]byte, len(txs))
+	for i := range bits {
+		bits[i] = '0'
+	}
+	for _, i := range matched {
+		bits[i] = '1'
+	}
+	if catHex(ids) != t[6] || string(bits) != t[7] {
+		return "oracle-mismatch " + catHex(ids) + " " + string(bits)
+	}
+	return fmt.Sprintf("%d %s %s", m.Transactions, hx.Hex(m.Flags), catHex(m.Hashes))
+}
 
 func hashes(s string) []*common.Uint256 {
 	b := hx.UnHex(s)
@@ -102,6 +217,8 @@ func classify(err error) string {
 		return "err no-tx"
 	case strings.HasPrefix(m, "No flag bits"):
 		return "err no-flags"
+	case strings.HasPrefix(m, "Too many transactions"):
+		return "err too-many"
 	case strings.HasPrefix(m, "computed root"):
 		return "err root-mismatch"
 	case strings.HasPrefix(m, "DUP HASH"):
@@ -171,6 +288,8 @@ func exec(t []string) string {
 		return doCheck(message(t))
 	case "branch":
 		return doBranch(message(t), hash1(t[5]))
+	case "nmb":
+		return doNMB(t)
 	}
 	panic("harness: unknown op " + t[0])
 }
@@ -257,6 +376,13 @@ func oracle(t []string, out string) *hx.Violation {
 		idx, _ := strconv.Atoi(f[1])
 		if hex.EncodeToString(refFold(txs[i][:], hashes(f[2]), idx)) != hex.EncodeToString(refRoot(txs)) {
 			return &hx.Violation{Kind: "branch-root", Detail: "branch of a matched transaction does not recompute the merkle root"}
+		}
+	case "nmb":
+		// no false negatives of the filter step (what was added is matched)
+		for i := range t[5] {
+			if t[5][i] == '1' && t[7][i] != '1' {
+				return &hx.Violation{Kind: "nmb-false-negative", Detail: "a transaction whose id was added to the filter is not matched"}
+			}
 		}
 	case "check", "spec":
 		if len(t) < 6 || t[5] == "-" || !strings.HasPrefix(out, "ok") {
@@ -354,14 +480,28 @@ func corruptions(g *hx.Gen, txs, bits string, all bool) {
 	for _, h := range m.Hashes {
 		hs = append(hs, h[:]...)
 	}
+	txsTok := txs
+	if n > 64 {
+		txsTok = "-" // keep the op lines small; the soundness oracle then skips these
+	}
 	emit := func(op string, n int, root string, fl, hh []byte) {
-		g.Emit("%s %d %s %s %s %s", op, n, root, hx.Hex(fl), hx.Hex(hh), txs)
+		g.Emit("%s %d %s %s %s %s", op, n, root, hx.Hex(fl), hx.Hex(hh), txsTok)
+	}
+	// for big trees only a bounded sample of the single-bit corruptions
+	pFlag, pHash := 30, 30
+	if !all {
+		if k := 8 * len(m.Flags); k > 40 {
+			pFlag = 4000 / k
+		}
+		if k := len(m.Hashes); k > 40 {
+			pHash = 4000 / k
+		}
 	}
 	emit("check", n, rootHex, flags, hs)
 	emit("spec", n, rootHex, flags, hs)
 	// every single-bit corruption of the flags
 	for i := 0; i < 8*len(flags); i++ {
-		if !all && !r.Chance(30) {
+		if !all && r.Intn(100) >= pFlag {
 			continue
 		}
 		f := append([]byte{}, flags...)
@@ -374,7 +514,7 @@ func corruptions(g *hx.Gen, txs, bits string, all bool) {
 	}
 	// single-bit corruptions of the hashes (every hash once, every bit position over time)
 	for i := 0; i < len(hs)/32; i++ {
-		if !all && !r.Chance(30) {
+		if !all && r.Intn(100) >= pHash {
 			continue
 		}
 		h := append([]byte{}, hs...)
@@ -403,6 +543,12 @@ func corruptions(g *hx.Gen, txs, bits string, all bool) {
 		}
 	}
 	emit("check", 0, rootHex, flags, hs)
+	if all || r.Chance(10) { // counts around pact.MaxTxPerBlock and where uint32 arithmetic would wrap or never end
+		for _, c := range []int{10000, 10001, 1 << 30, 1<<30 + 1, 1 << 31, 1<<31 + 1, 1<<32 - 1} {
+			emit("check", c, rootHex, flags, hs)
+		}
+		g.Emit("branch %d %s %s %s %s", 1<<31+1, rootHex, hx.Hex(flags), hx.Hex(hs), hex.EncodeToString(hashes(txs)[0][:]))
+	}
 	bad := append([]byte{}, root[:]...)
 	bad[r.Intn(32)] ^= 1
 	emit("check", n, hex.EncodeToString(bad), flags, hs)
@@ -423,10 +569,40 @@ func corruptions(g *hx.Gen, txs, bits string, all bool) {
 
 func h2f(b []byte) []byte { return b }
 
+func genNMB(g *hx.Gen) {
+	r := g.R
+	for k := 0; k < g.N(60, 600); k++ {
+		n := 1 + r.Intn(20)
+		if r.Chance(15) {
+			n = 1 + r.Intn(70)
+		}
+		raws := make([]string, n)
+		for i := range raws {
+			raws[i] = hex.EncodeToString(freshTx(r))
+		}
+		added := randBits(r, n)
+		elements := 1 + r.Intn(50)
+		tweak := uint32(r.U64())
+		if r.Chance(10) {
+			tweak = 0
+		}
+		ppm := r.Pick(1, 100, 10000, 200000)
+		op := fmt.Sprintf("nmb %s %d %d %d %s", strings.Join(raws, ","), elements, tweak, ppm, added)
+		// first run tells the ids and what the filter matched; they travel in the op line and are re-checked
+		out := exec(append(strings.Fields(op), "-", "-"))
+		f := strings.Fields(out)
+		if len(f) != 3 || f[0] != "oracle-mismatch" {
+			panic("harness: nmb probe: " + out)
+		}
+		g.Emit("%s %s %s", op, f[1], f[2])
+	}
+}
+
 func gen(g *hx.Gen) {
 	r := g.R
+	genNMB(g)
 	// exhaustive match patterns for small n
-	maxEx := g.N(6, 12)
+	maxEx := g.N(6, 10)
 	for n := 1; n <= maxEx; n++ {
 		txs := randTxs(r, n)
 		for v := uint64(0); v < 1<<uint(n); v++ {
@@ -446,9 +622,9 @@ func gen(g *hx.Gen) {
 		}
 	}
 	// all tx counts 1..33 (and beyond) with random patterns
-	for n := 1; n <= g.N(40, 130); n++ {
+	for n := 1; n <= g.N(40, 100); n++ {
 		txs := randTxs(r, n)
-		for k := 0; k < g.N(3, 12); k++ {
+		for k := 0; k < g.N(3, 8); k++ {
 			bits := randBits(r, n)
 			emitAll(g, txs, bits)
 			if k == 0 {
@@ -456,8 +632,8 @@ func gen(g *hx.Gen) {
 			}
 		}
 	}
-	for k := 0; k < g.N(8, 200); k++ {
-		n := 1 + r.Intn(g.N(300, 3000))
+	for k := 0; k < g.N(8, 60); k++ {
+		n := 1 + r.Intn(g.N(300, 2000))
 		if r.Chance(30) {
 			n = r.Pick(255, 256, 257, 511, 512, 513, 1023, 1024, 1025)
 		}
